@@ -260,7 +260,7 @@ def guarded(rec, fn):
 # ---------------------------------------------------------------------- records
 def section_record(tm, mesh, name, n, c2, o, nn, sub, use_kw):
     ix = tm.intersections
-    rec = base_record("section", name, [(n, c2)], sub, origin=list(o), normal=list(map(float, nn)), api="mesh_plane+section")
+    rec = base_record("section", name, [(n, c2)], sub, origin=[float(x) for x in o], normal=[float(x) for x in nn], api="mesh_plane+section")
     rec.update(segs=[], fidx=[], haspath=True, psegs=[])
 
     def run(rec):
@@ -334,7 +334,7 @@ def slice_call(tm, mesh, nn, o, api, **kw):
 
 
 def slice_record(tm, mesh, Vf, Ff, name, n, c2, o, nn, sub, api):
-    rec = base_record("slice", name, [(n, c2)], sub, origin=list(o), normal=list(map(float, nn)), api=api)
+    rec = base_record("slice", name, [(n, c2)], sub, origin=[float(x) for x in o], normal=[float(x) for x in nn], api=api)
     rec.update(hasneg=True, pos=EMPTY_OUT, neg=EMPTY_OUT)
 
     def run(rec):
@@ -348,7 +348,7 @@ def slice_record(tm, mesh, Vf, Ff, name, n, c2, o, nn, sub, api):
 
 
 def cap_record(tm, mesh, Vf, Ff, name, n, c2, o, nn, engine, api):
-    rec = base_record("cap", name, [(n, c2)], None, origin=list(o), normal=list(map(float, nn)), api=api, engine=engine)
+    rec = base_record("cap", name, [(n, c2)], None, origin=[float(x) for x in o], normal=[float(x) for x in nn], api=api, engine=engine)
     rec.update(pos=EMPTY_OUT, neg=EMPTY_OUT, note=True)
 
     def run(rec):
@@ -417,6 +417,12 @@ def _chunk(items):
                 out.append(section_record(tm, mesh, name, n, c2, o, nn, sub, True))
                 if want_slice:
                     out.append(slice_record(tm, mesh, Vf, Ff, name, n, c2, o, nn, sub, api))
+        elif kind == "capsweep":
+            _, _, _, n, c2, eng = it
+            o = np.array(origin_for(n, c2, rs), dtype=np.float64) / 2.0
+            nn = normal_variant(n, rs.randint(3))
+            api = ("slice_plane", "slice_mesh_plane")[rs.randint(2)]
+            out.append(cap_record(tm, mesh, Vf, Ff, name, n, c2, o, nn, eng, api))
         elif kind == "multi":
             _, _, _, n, c2s = it
             out.extend(multiplane_records(tm, mesh, name, n, c2s, rs))
@@ -437,6 +443,12 @@ def k_theory(name, n):
         if d:
             K = K * d // math.gcd(K, d)
     return K
+
+
+def sign_patterns_v(name, n, c2):
+    """{(0, 0, 0)} if some vertex lies on the plane (enumeration only)"""
+    V, _ = SEEDS[name]
+    return {(0, 0, 0)} if any(2 * (n[0] * v[0] + n[1] * v[1] + n[2] * v[2]) == c2 for v in V) else set()
 
 
 def sign_patterns(name, n, c2):
@@ -468,7 +480,8 @@ def build_work(tier, engines, rs):
             patterns |= sign_patterns(base + "/r0", n, c2)
             npairs += 1
             want_slice = positive_rep(n)
-            eng = list(engines)
+            # thorough: every engine on every pair; quick: every engine on every second pair, one (rotating) on the rest
+            eng = list(engines) if (tier == "thorough" or k % 2 == 0 or not engines) else [engines[(k // 2) % len(engines)]]
             if want_slice and k_theory(base + "/r0", n) > KCAP:
                 eng = []
                 nocap[base + str(list(n))] = nocap.get(base + str(list(n)), 0) + 1
@@ -477,6 +490,12 @@ def build_work(tier, engines, rs):
                 want_sub = ((k + j) % 3) == 0
                 work.append(("plane", "%s/r%d" % (base, r), wid, n, c2, eng, want_slice, want_sub))
                 wid += 1
+            # capping a non-convex solid through a vertex pinches the section polygon and the outcome then
+            # depends on rounding noise: more origins on the same plane, normal scalings and engines
+            if eng and base in NONCONVEX and (0, 0, 0) in sign_patterns_v(base + "/r0", n, c2):
+                for q in range(40 if tier == "thorough" else 3):
+                    work.append(("capsweep", "%s/r%d" % (base, (k + q) % 3), wid, n, c2, eng[(k + q) % len(eng)]))
+                    wid += 1
         # plane pairs for multi-plane slicing: normals from {-1,0,1}^3
         simple = [(n, c2) for n, c2 in planes if max(abs(x) for x in n) == 1]
         for q in range(600 if tier == "thorough" else 90):
@@ -579,7 +598,8 @@ def main(argv):
            "presentations_per_seed": 3,
            "normals": len(normals_all()), "triangle_sign_patterns": len(patterns),
            "records_per_kind": bykind, "records_per_api": byapi, "capped_records_per_engine": byengine,
-           "planes_not_capped_grid_too_fine": nocap, "plane_pairs_not_judged_grid_too_fine": skipped_pairs, "engines_used": engines, "engines_skipped_not_importable": skipped,
+           "planes_not_capped_grid_too_fine": nocap, "plane_pairs_not_judged_grid_too_fine": skipped_pairs,
+           "engines_used": engines, "engines_skipped_not_importable": skipped,
            "sections_with_segments": nonempty_sections, "slices_with_faces_on_both_sides_or_pairs": cut_slices,
            "capped_halves_nonempty": nonempty_halves, "capped_halves_empty": empty_halves,
            "common_denominators": {str(k): v for k, v in sorted(ks.items())},
@@ -592,6 +612,9 @@ def main(argv):
         "returned coordinates are rationals with denominator <= %d (snap residual <= 1e-9)" % DMAX,
         "watertightness demanded of non-empty halves of convex seeds only; isolated touching points, sections with an "
         "edge in the plane (beyond soundness), the owner of an in-plane face and unselected faces are unconstrained",
+        "each capped half must have the volume of the solid's part in its half space for convex seeds and for cuts "
+        "through no vertex; for non-convex seeds cut through a vertex only the stated sum of the two volumes is "
+        "demanded and a differing half volume is counted under observations_outside_the_property",
     ])
 
 
